@@ -290,7 +290,7 @@ func runC06Driver(c *Ctx) {
 				res := "ok"
 				// every fifth sequence: the BUSINESS transaction of the first delivery cannot be committed (the
 				// first COMMIT the database sees is the business one): for the model a callback that fails
-				failing := i%5 == 2 && k == 0
+				failing := i%5 == 2 && k == 0 && ph == 'P' // (a first try always runs its business: the model's failing callback)
 				tx, err := db.BeginTx(ctx, nil)
 				if err == nil {
 					if failing {
